@@ -38,6 +38,8 @@
                                                              "min x_1 + x_2 + z_5 + z_6\ns.t.\n    x_1 + z_5 >= 1\n    x_1 + z_6 >= 1\n    x_2 + z_5 >= 1\n    x_2 + z_6 >= 1\ndefine\n    x_1, x_2 as Real(0, 4)\n    z_5, z_6 as Boolean".into()),
             ("compound indices", "min x_0 + x_3\ns.t.\n    x_i + x_{i + 1} + x_{len(c) + 0} >= i for i in 0..3\nwhere\n    let c = [7, 8, 9]\ndefine\n    x_i as NonNegativeReal for i in 0..4".into(),
                                  "min x_0 + x_3\ns.t.\n    x_0 + x_1 + x_3 >= 0\n    x_1 + x_2 + x_3 >= 1\n    x_2 + x_3 + x_3 >= 2\ndefine\n    x_0, x_1, x_2, x_3 as NonNegativeReal".into()),
+            ("inclusive ranges and negative bounds", "min sum(i in -1..=1) { (i + 2) * x_{i + 1} } + sum(j in -2..0) { z_{j + 2} }\ns.t.\n    x_{i + 1} + (i + 3) * y >= i for i in -1..=1\n    z_{j + 2} <= j + 5 for j in -2..0\n    y <= k for k in 2..=3\ndefine\n    x_j as NonNegativeReal for j in 0..=2\n    z_j as NonNegativeReal for j in 0..2\n    y as NonNegativeReal".into(),
+                                                     "min (-1 + 2) * x_0 + (0 + 2) * x_1 + (1 + 2) * x_2 + (z_0 + z_1)\ns.t.\n    x_0 + (-1 + 3) * y >= -1\n    x_1 + (0 + 3) * y >= 0\n    x_2 + (1 + 3) * y >= 1\n    z_0 <= -2 + 5\n    z_1 <= -1 + 5\n    y <= 2\n    y <= 3\ndefine\n    x_0, x_1, x_2 as NonNegativeReal\n    z_0, z_1 as NonNegativeReal\n    y as NonNegativeReal".into()),
             ("zip of two arrays", "max sum((a, b) in zip(A, B)) { a * x + b * y }\ns.t.\n    x + y <= 4\nwhere\n    let A = [1, 2]\n    let B = [3, 5]\ndefine\n    x, y as NonNegativeReal".into(),
                                   "max 1 * x + 3 * y + 2 * x + 5 * y\ns.t.\n    x + y <= 4\ndefine\n    x, y as NonNegativeReal".into()),
             ("nested sums with a dependent range", "min y\ns.t.\n    sum(i in 0..3, j in 0..(i + 1)) { (i + j) * y } >= 8\ndefine\n    y as NonNegativeReal".into(),
